@@ -506,12 +506,19 @@ def _scenario_b(ctx, inj, idx, state):
 
     def peer_connect():
         if active:
-            try:
-                s, _ = listener.accept()
-                return s
-            except OSError:
-                return None
-        end = time.monotonic() + 4
+            # the endpoint connects again after T5 (1 s): 4 s is plenty on an idle machine; before 'never' is concluded the
+            # listener stays patient for another 20 s (more on a loaded machine) - only a tree that does not come back pays that
+            for wait_s in (4.0, stuck.patience(8.0), stuck.patience(12.0)):
+                listener.settimeout(wait_s)
+                try:
+                    s, _ = listener.accept()
+                    return s
+                except socket.timeout:
+                    ctx.count("partB.accept_needed_more_patience")
+                except OSError:
+                    return None
+            return None
+        end = time.monotonic() + stuck.patience(4)
         while time.monotonic() < end:
             try:
                 return socket.create_connection(("127.0.0.1", port), timeout=1.0)
@@ -529,7 +536,7 @@ def _scenario_b(ctx, inj, idx, state):
             if not req:
                 return False
             sock.sendall(wire.hsms_control(wire.SELECT_RSP, req[0].system))
-            end = time.monotonic() + 2
+            end = time.monotonic() + stuck.patience(2)
             while time.monotonic() < end and ep.state != "CONNECTED_SELECTED":
                 time.sleep(0.005)
             return ep.state == "CONNECTED_SELECTED"
